@@ -238,25 +238,29 @@ class PolyChordOptimizer(Optimizer):
 
         # opening cluster files (or global file if no clustering) and get MAP, mean, sigma for parameters
         if self.do_clustering:
-            for midx in range(num_clusters):
-                # cycling through cluster files
-                data = np.loadtxt(os.path.join(
-                    self.dir_polychord, 'clusters/1-_{0}.txt'.format(midx+1)))
-                # find maximum likelihood index
-                # (a scalar row index: indexing with np.where's tuple gives
-                # (1, 1) arrays that cannot be written into the model)
-                mL_idx = np.argmin(data[:, 1])
-                stats['modes'][midx]['maximum a posterior'] = {}
-                stats['modes'][midx]['mean'] = {}
-                stats['modes'][midx]['sigma'] = {}
-                for idx in range(len(self.fit_names)):
-                    # cycle through parameters
-                    # maximum likelihood values
-                    stats['modes'][midx]['maximum a posterior'][idx] = data[mL_idx, 2+idx]
-                    # weighted average and sigma
-                    mu, sig = weighted_avg_and_std(data[:, 2+idx], data[:, 0])
-                    stats['modes'][midx]['mean'][idx] = mu
-                    stats['modes'][midx]['sigma'][idx] = sig
+            chain_files = ['clusters/1-_{0}.txt'.format(midx+1)
+                           for midx in range(num_clusters)]
+        else:
+            # without clustering the only solution is the main chain file
+            chain_files = ['1-.txt']
+
+        for midx, chain_file in enumerate(chain_files):
+            data = np.loadtxt(os.path.join(self.dir_polychord, chain_file))
+            # find maximum likelihood index
+            # (a scalar row index: indexing with np.where's tuple gives
+            # (1, 1) arrays that cannot be written into the model)
+            mL_idx = np.argmin(data[:, 1])
+            stats['modes'][midx]['maximum a posterior'] = {}
+            stats['modes'][midx]['mean'] = {}
+            stats['modes'][midx]['sigma'] = {}
+            for idx in range(len(self.fit_names)):
+                # cycle through parameters
+                # maximum likelihood values
+                stats['modes'][midx]['maximum a posterior'][idx] = data[mL_idx, 2+idx]
+                # weighted average and sigma
+                mu, sig = weighted_avg_and_std(data[:, 2+idx], data[:, 0])
+                stats['modes'][midx]['mean'][idx] = mu
+                stats['modes'][midx]['sigma'][idx] = sig
 
         return stats
 
